@@ -80,6 +80,31 @@ def first_difference(a, b, path="arg"):
     return None if a == b else f"{path}: {str(a)[:60]} -> {str(b)[:60]}"
 
 
+def sibling_settings(rng, nweapons):
+    """unit settings for two different units that carry one weapon, with different damage values for it"""
+    from decimal import Decimal
+    from richchk.model.richchk.str.rich_string import RichNullString
+    from richchk.model.richchk.unis.unit_id import UnitId
+    from richchk.model.richchk.unis.unit_setting import UnitSetting
+    from richchk.model.richchk.unis.unit_to_weapon_lookup import get_weapons_for_unit
+    from richchk.model.richchk.unis.weapon_setting import WeaponSetting
+    carriers = {}
+    for u in UnitId:
+        for w in get_weapons_for_unit(u):
+            if w.id < nweapons:
+                carriers.setdefault(w, []).append(u)
+    w = rng.choice(sorted((w for w, us in carriers.items() if len(us) >= 2), key=lambda x: x.id))
+    a, b = rng.sample(carriers[w], 2)
+
+    def mk(u, dmg):
+        return UnitSetting(_unit_id=u, _hitpoints=Decimal(40), _shieldpoints=1, _armorpoints=2, _build_time=3, _mineral_cost=4,
+                           _gas_cost=5, _custom_unit_name=RichNullString(),
+                           _weapons=[WeaponSetting(_weapon_id=x, _base_damage=dmg if x == w else 9, _upgrade_damage=dmg // 10 + 1)
+                                     for x in get_weapons_for_unit(u) if x.id < nweapons],
+                           _use_default_unit_settings=False)
+    return mk(a, 20), mk(b, 35)
+
+
 def catalogue(rng: random.Random):
     """[(name, callable taking a fresh argument tuple, argument factory)] — every public operation of the anchored files"""
     from richchk.editor.chk.decoded_str_section_editor import DecodedStrSectionEditor
@@ -188,6 +213,16 @@ def catalogue(rng: random.Random):
          lambda: (lambda u: (list(u.unit_settings[:2]) or [], u))(sec(rich(), RichUnisSection))),
         ("RichUnixEditor.upsert_all_unit_settings", lambda a: RichUnixEditor().upsert_all_unit_settings(*a),
          lambda: (lambda u: (list(u.unit_settings[:2]) or [], u))(sec(rich(), RichUnixSection))),
+        # two units that carry ONE weapon (12 weapons are carried by 2-3 units), with different damage values for it: the
+        # setting of the sibling already in the section, and both siblings in one request
+        ("RichUnisEditor.upsert_unit_setting (sibling sharing a weapon)", lambda a: RichUnisEditor().upsert_unit_setting(*a),
+         lambda: (lambda p: (p[0], RichUnisSection(_unit_settings=[p[1]])))(sibling_settings(rng, 100))),
+        ("RichUnixEditor.upsert_unit_setting (sibling sharing a weapon)", lambda a: RichUnixEditor().upsert_unit_setting(*a),
+         lambda: (lambda p: (p[0], RichUnixSection(_unit_settings=[p[1]])))(sibling_settings(rng, 130))),
+        ("RichUnisEditor.upsert_all_unit_settings (siblings sharing a weapon)", lambda a: RichUnisEditor().upsert_all_unit_settings(*a),
+         lambda: (lambda p: (list(p), RichUnisSection(_unit_settings=[])))(sibling_settings(rng, 100))),
+        ("RichUnixEditor.upsert_all_unit_settings (siblings sharing a weapon)", lambda a: RichUnixEditor().upsert_all_unit_settings(*a),
+         lambda: (lambda p: (list(p), RichUnixSection(_unit_settings=[])))(sibling_settings(rng, 130))),
         ("DecodedStrSectionEditor.add_strings", lambda a: DecodedStrSectionEditor().add_strings_to_str_section(*a),
          lambda: (["new one", "beta", "new one"], str_table(DecodedStrSection))),
         ("DecodedStrxSectionEditor.add_strings", lambda a: DecodedStrxSectionEditor().add_strings_to_strx_section(*a),
